@@ -1,4 +1,4 @@
 CONSTANTS Codes <- CodesM SizeVals = {0, 4, 6} MRows = 2 MCols = 2 Gfxs = {35, 32} UnreprSets <- Unr
 SPECIFICATION Spec
-INVARIANTS ExportShape ExportChars ExportExact TableShape TableRegion TableChars
+INVARIANTS ExportShape ExportChars ExportExact TableShape TableRegion TableChars AcceptSound
 CHECK_DEADLOCK FALSE
